@@ -22,20 +22,34 @@ import (
 )
 
 type c17Case struct {
-	Shape gen.Shape `json:"shape"`
-	Pool  []gen.Rec `json:"pool"` // the input is the pool cycled K times
-	K     int       `json:"k"`
-	Sep   int       `json:"sep"` // 0 none, 1 insignificant separator (blank line / whitespace) between records
+	// Nest, when non-empty, selects the nested-candidates arm (xml or json by NestJSON): the input repeats the listed
+	// kinds of elements named c under a fixed root, K times: 0 = <c flag=y/> (delivered), 1 = <c flag=n/> (rejected),
+	// 2 = <c flag=n><c flag=y/></c> (outermost is the candidate and is rejected as a whole), 3 = <c flag=y><c flag=n/></c>
+	// (delivered as a whole); target xpath //c[@flag='y'] (xml) resp. //list/*[flag='y'] over list elements that may carry a nested list (json).
+	Nest     []int     `json:"nest,omitempty"`
+	NestJSON bool      `json:"nest_json,omitempty"`
+	Shape    gen.Shape `json:"shape"`
+	Pool     []gen.Rec `json:"pool"` // the input is the pool cycled K times
+	K        int       `json:"k"`
+	Sep      int       `json:"sep"` // 0 none, 1 insignificant separator (blank line / whitespace) between records
 }
 
 func genC17(t *rapid.T) c17Case {
 	c := c17Case{}
+	if rapid.IntRange(0, 7).Draw(t, "nestedArm") == 0 {
+		c.Nest = rapid.SliceOfN(rapid.IntRange(0, 3), 1, 5).Draw(t, "nestKinds")
+		c.Nest = append(c.Nest, 0) // at least one delivered kind
+		c.NestJSON = rapid.Bool().Draw(t, "nestJSON")
+		c.K = rapid.SampledFrom([]int{50, 100, 400, 400, 2000}).Draw(t, "nestK")
+		return c
+	}
 	c.Shape = gen.DrawShape(t, gen.ShapeOpts{NoJS: true})
 	c.Shape.Grouped = false // a wrapper element per record is not "a fixed set of ancestors": out of C17's domain
 	if c.Shape.IntCol == 0 && rapid.Bool().Draw(t, "dropIntCol") {
 		c.Shape.IntCol = -1
 	}
 	c.Shape.Filter = c.Shape.IntCol != 0 && rapid.IntRange(0, 2).Draw(t, "withFilter") > 0
+	c.Shape.QuoteInFilter = c.Shape.Filter && c.Shape.Format != "edi" && rapid.Bool().Draw(t, "quoteInFilter17")
 	c.Pool = gen.DrawRecs(t, c.Shape, "p", 1, 4, gen.ValueOpts{MaxLen: 4})
 	// make sure the filter (if any) rejects candidates between deliveries
 	if c.Shape.Filter {
@@ -164,7 +178,100 @@ func (c c17Case) verdict(sep int) string {
 	return ""
 }
 
+func (c c17Case) nestRender(k int) (schema string, in []byte) {
+	var b strings.Builder
+	if c.NestJSON {
+		schema = `{"parser_settings":{"version":"omni.2.1","file_format_type":"json"},"transform_declarations":{"FINAL_OUTPUT":{"xpath":"//list/*[flag='y']","object":{"f":{"xpath":"flag"}}}}}`
+		b.WriteString(`{"hdr":"h","list":[`)
+		for i := 0; i < k; i++ {
+			if i > 0 {
+				b.WriteString(",")
+			}
+			switch c.Nest[i%len(c.Nest)] {
+			case 0:
+				b.WriteString(`{"flag":"y","v":"1"}`)
+			case 1:
+				b.WriteString(`{"flag":"n","v":"2"}`)
+			case 2:
+				b.WriteString(`{"flag":"n","list":[{"flag":"y","v":"3"}]}`)
+			default:
+				b.WriteString(`{"flag":"y","list":[{"flag":"n","v":"4"}]}`)
+			}
+		}
+		b.WriteString(`]}`)
+		return schema, []byte(b.String())
+	}
+	schema = `{"parser_settings":{"version":"omni.2.1","file_format_type":"xml"},"transform_declarations":{"FINAL_OUTPUT":{"xpath":"//c[@flag='y']","object":{"f":{"xpath":"@flag"}}}}}`
+	b.WriteString(`<root><hdr>h</hdr>`)
+	for i := 0; i < k; i++ {
+		switch c.Nest[i%len(c.Nest)] {
+		case 0:
+			b.WriteString(`<c flag="y">1</c>`)
+		case 1:
+			b.WriteString(`<c flag="n">2</c>`)
+		case 2:
+			b.WriteString(`<c flag="n"><c flag="y">3</c></c>`)
+		default:
+			b.WriteString(`<c flag="y"><c flag="n">4</c></c>`)
+		}
+	}
+	b.WriteString(`</root>`)
+	return schema, []byte(b.String())
+}
+
+func checkC17Nested(c c17Case) obs.Result {
+	classes := []string{"arm=nested-candidates"}
+	if c.NestJSON {
+		classes = append(classes, "format=json")
+	} else {
+		classes = append(classes, "format=xml")
+	}
+	schema, in1 := c.nestRender(c.K)
+	s1, recMax, _, err := c17Sizes(schema, in1)
+	if err != nil {
+		return obs.Violationf("nested-candidates arm: %v", err)
+	}
+	delivered := 0
+	for i := 0; i < c.K; i++ {
+		if k := c.Nest[i%len(c.Nest)]; k == 0 || k == 3 {
+			delivered++
+		}
+	}
+	// (how many are delivered is C04's subject; whatever is delivered, what stays reachable must be bounded)
+	if len(s1) == 0 {
+		return obs.OK(false, classes...)
+	}
+	head := s1
+	if len(head) > 8 {
+		head = head[:8]
+	}
+	bound := c17Max(head) + recMax
+	for i, sz := range s1 {
+		if sz > bound {
+			return obs.Violationf("nested candidates (kinds %v, json=%v): tree reachable from delivered record #%d has %d nodes; bound %d (sizes start %v, k=%d)", c.Nest, c.NestJSON, i, sz, bound, head, c.K)
+		}
+	}
+	_, in2 := c.nestRender(2 * c.K)
+	s2, _, _, err := c17Sizes(schema, in2)
+	if err != nil {
+		return obs.Violationf("nested-candidates arm: %v", err)
+	}
+	if c17Max(s2) != c17Max(s1) {
+		return obs.Violationf("nested candidates (kinds %v, json=%v): maximum reachable tree size grows with the record count: %d for k=%d, %d for k=%d", c.Nest, c.NestJSON, c17Max(s1), c.K, c17Max(s2), 2*c.K)
+	}
+	rejected := false
+	for _, k := range c.Nest {
+		if k == 1 || k == 2 {
+			rejected = true
+		}
+	}
+	return obs.OK(delivered >= 50 && rejected, classes...)
+}
+
 func checkC17(c c17Case) obs.Result {
+	if len(c.Nest) > 0 {
+		return checkC17Nested(c)
+	}
 	classes := []string{"format=" + c.Shape.Format, fmt.Sprintf("sep=%d", c.Sep)}
 	if c.K >= 2000 {
 		classes = append(classes, "k>=2000")
